@@ -52,6 +52,25 @@ fn main() {
                 }
             }
         }
+        "replay" => {
+            // tsmc replay <replay file>: re-run the check that produced it and report on that signature only
+            let text = std::fs::read_to_string(&rest[0]).expect("read replay file");
+            let v: serde_json::Value = serde_json::from_str(&text).expect("replay file is JSON");
+            let prop = v["property"].as_str().expect("property").to_string();
+            let sig = v["signature"].as_str().expect("signature").to_string();
+            println!("replaying {prop}: {sig}");
+            println!("recorded case: {}", serde_json::to_string_pretty(&v["case"]).unwrap_or_default().chars().take(3000).collect::<String>());
+            let exe = std::env::current_exe().expect("exe");
+            let mut code = 0;
+            for tier in ["quick", "thorough"] {
+                let st = std::process::Command::new(&exe).args([prop.as_str(), "--tier", tier]).env("TSMC_ONLY_SIG", &sig).status().expect("re-run");
+                code = st.code().unwrap_or(2);
+                if code == 1 {
+                    break;
+                }
+            }
+            code
+        }
         "warm" => {
             for (files, errs) in [(vec!["fa", "fb"], vec![]), (vec!["fa", "fb", "fc"], vec![]), (vec!["fa", "fb"], vec!["fb"]), (vec!["fa", "fb", "fc"], vec!["fb"]), (vec!["fa", "fb", "fc"], vec!["fa", "fc"]), (vec!["fa", "fb"], vec!["fa", "fb"])] {
                 match e3::tlc_graph(&files, &errs) {
